@@ -109,7 +109,7 @@ func TestC14(t *testing.T) {
 			pattern = searchPatterns[d.Uni(len(searchPatterns), "pattern")]
 		}
 		qtags := map[string]string{}
-		if d.OneIn(3, "qtag") {
+		if d.OneIn(3, "qtag") || (schedules && d.Bool("qtagsched")) {
 			qtags["k"] = []string{"v1", "v2"}[d.Uni(2, "qtagv")]
 		}
 		var states []promise.State
@@ -229,8 +229,8 @@ func TestC14(t *testing.T) {
 						add("R6", "own cursor token rejected: %v", err)
 						break
 					}
-					if dec.Next.Id != pattern || dec.Next.Limit != limit {
-						add("R6", "cursor does not carry the query: %v", dec.Next)
+					if dec.Next.Id != pattern || dec.Next.Limit != limit || !sameMap(dec.Next.Tags, qtags) {
+						add("R6", "cursor does not carry the query (pattern %q tags %v limit %d): %v", pattern, qtags, limit, dec.Next)
 					}
 					next = dec.Next.SortId
 					vs = append(vs, tamper(tok, &tampered, &tamperedRejected, func(x string) error {
@@ -241,6 +241,9 @@ func TestC14(t *testing.T) {
 			} else {
 				for _, pr := range rr.Res.SearchPromises.Promises {
 					p.ids = append(p.ids, pr.Id)
+					if int(pr.State)&mask == 0 {
+						add("R1", "page %d returned %s in state %s, which the state filter %v excludes", pg, pr.Id, pr.State, states)
+					}
 					if pr.State == promise.Pending && pr.Timeout <= rr.ResTick {
 						add("R5", "page %d reports overdue promise %s as pending (timeout %d, tick %d)", pg, pr.Id, pr.Timeout-Base, rr.ResTick-Base)
 					}
@@ -257,8 +260,8 @@ func TestC14(t *testing.T) {
 						add("R6", "own cursor token rejected: %v", err)
 						break
 					}
-					if dec.Next.Id != pattern || dec.Next.Limit != limit || len(dec.Next.States) != len(states) {
-						add("R6", "cursor does not carry the query: %v", dec.Next)
+					if dec.Next.Id != pattern || dec.Next.Limit != limit || fmt.Sprint(dec.Next.States) != fmt.Sprint(states) || !sameMap(dec.Next.Tags, qtags) {
+						add("R6", "cursor does not carry the query (pattern %q states %v tags %v limit %d): %v", pattern, states, qtags, limit, dec.Next)
 					}
 					next = dec.Next.SortId
 					vs = append(vs, tamper(tok, &tampered, &tamperedRejected, func(x string) error {
